@@ -44,6 +44,8 @@ struct HookDef {
     before: bool,
     script: Vec<Outcome>,
     try_register: bool,
+    /// a before hook that also moves RIP past the following instruction (for CALL: the return address that gets pushed)
+    mod_rip: bool,
 }
 
 #[derive(Clone, Debug)]
@@ -55,13 +57,26 @@ struct Event {
     digest_seen: u64,
     outcome: Outcome,
     inner_registration_ok: Option<bool>,
+    rip_set: Option<u64>,
 }
 
 thread_local! {
     static DEFS: RefCell<Vec<HookDef>> = RefCell::new(Vec::new());
     static INV: RefCell<Vec<usize>> = RefCell::new(Vec::new());
     static LOG: RefCell<Vec<Event>> = RefCell::new(Vec::new());
+    /// the program under execution (hooks that move RIP decode the instruction they skip)
+    static PROG: RefCell<Vec<u8>> = RefCell::new(Vec::new());
 }
+
+/// a hook error whose Display output is empty
+#[derive(Debug)]
+struct SilentError;
+impl std::fmt::Display for SilentError {
+    fn fmt(&self, _: &mut std::fmt::Formatter<'_>) -> std::fmt::Result {
+        Ok(())
+    }
+}
+impl std::error::Error for SilentError {}
 
 const LIST_AT: u64 = 0x20_0000;
 const LIST_LEN: u64 = 0x2000;
@@ -106,6 +121,15 @@ fn hook_body(id: usize, ax: &mut Axecutor, m: SM) -> Result<HookResult, Box<dyn 
     let count_seen = ax.verif_executed_instructions_count();
     let digest_seen = digest(ax);
     apply_mod(ax, id)?;
+    // RIP is part of the machine: a before hook of a non-branching instruction (or of CALL) moves it past the next instruction
+    let mut rip_set = None;
+    if def.mod_rip && def.before && matches!(m, SM::Call | SM::Mov | SM::Add | SM::Sub | SM::Xor | SM::And | SM::Cmp | SM::Nop | SM::Push) {
+        let x = PROG.with(|p| decode_at(&p.borrow(), proggen::CODE_AT, rip_seen).map(|i| i.next_ip()));
+        if let Some(x) = x {
+            ax.reg_write_64(SR::RIP, x)?;
+            rip_set = Some(x);
+        }
+    }
     // registration from inside a hook must be refused, whichever entry point is used and whatever state the run is in
     let inner = if def.try_register {
         Some(match (id + inv) % 3 {
@@ -117,7 +141,7 @@ fn hook_body(id: usize, ax: &mut Axecutor, m: SM) -> Result<HookResult, Box<dyn 
         None
     };
     let outcome = def.script.get(inv).copied().unwrap_or(Outcome::Unhandled);
-    LOG.with(|l| l.borrow_mut().push(Event { id, passed: m, rip_seen, count_seen, digest_seen, outcome, inner_registration_ok: inner }));
+    LOG.with(|l| l.borrow_mut().push(Event { id, passed: m, rip_seen, count_seen, digest_seen, outcome, inner_registration_ok: inner, rip_set }));
     match outcome {
         Outcome::Unhandled => Ok(HookResult::Unhandled),
         Outcome::Handled => Ok(HookResult::Handled),
@@ -129,7 +153,13 @@ fn hook_body(id: usize, ax: &mut Axecutor, m: SM) -> Result<HookResult, Box<dyn 
             ax.stop();
             Ok(HookResult::Handled)
         }
-        Outcome::Error => Err("scripted hook failure".into()),
+        // failing hooks fail with all sorts of errors, including ones that print as nothing
+        Outcome::Error => match (id + inv) % 4 {
+            0 => Err("scripted hook failure".into()),
+            1 => Err("".into()),
+            2 => Err(Box::new(SilentError)),
+            _ => Err("first line\nsecond line: {} {:?} %s".into()),
+        },
     }
 }
 
@@ -235,7 +265,7 @@ impl C12 {
             for before in [true, false] {
                 for _ in 0..rng.below(5) {
                     let script: Vec<Outcome> = (0..rng.below(6)).map(|_| gen_outcome(rng, eventful)).collect();
-                    defs.push(HookDef { mnemonic: *m, before, script, try_register: rng.below(4) == 0 });
+                    defs.push(HookDef { mnemonic: *m, before, script, try_register: rng.below(4) == 0, mod_rip: before && rng.below(5) == 0 });
                 }
             }
         }
@@ -243,6 +273,7 @@ impl C12 {
         DEFS.with(|d| *d.borrow_mut() = defs.clone());
         INV.with(|v| *v.borrow_mut() = vec![0; HOOK_FNS.len()]);
         LOG.with(|l| l.borrow_mut().clear());
+        PROG.with(|p| *p.borrow_mut() = prog.code.clone());
         let fail = |col: &mut Collector, rule: &str, detail: String, step: u64| {
             let cfg: Vec<String> = DEFS.with(|d| d.borrow().iter().enumerate().map(|(i, h)| format!("#{} {:?} {} {:?}{}", i, h.mnemonic, if h.before { "before" } else { "after" }, h.script, if h.try_register { " +registers-from-inside" } else { "" })).collect());
             col.violation_case(&format!("hooks:{}", rule), k, format!("{} (step {}, program shape {})", detail, step, prog.shape), json!({"program_hex": hex(&prog.code), "hooks": cfg, "step": step, "problem": detail}));
@@ -277,7 +308,7 @@ impl C12 {
             if rng.below(12) == 0 && extra_registrations < 6 {
                 let id = DEFS.with(|d| d.borrow().len());
                 if id < HOOK_FNS.len() {
-                    let d = HookDef { mnemonic: *rng.pick(&mnems), before: rng.below(2) == 0, script: (0..rng.below(3)).map(|_| gen_outcome(rng, eventful)).collect(), try_register: false };
+                    let d = HookDef { mnemonic: *rng.pick(&mnems), before: rng.below(2) == 0, script: (0..rng.below(3)).map(|_| gen_outcome(rng, eventful)).collect(), try_register: false, mod_rip: false };
                     DEFS.with(|v| v.borrow_mut().push(d.clone()));
                     let r = if d.before { call(|| ax.hook_before_mnemonic_native(d.mnemonic, HOOK_FNS[id])) } else { call(|| ax.hook_after_mnemonic_native(d.mnemonic, HOOK_FNS[id])) };
                     extra_registrations += 1;
@@ -324,7 +355,8 @@ impl C12 {
                 if format!("{:?}", e.passed) != format!("{:?}", ins.mnemonic()) || defs_now[e.id].mnemonic != e.passed {
                     return fail(col, "hook-of-another-mnemonic-invoked", format!("hook #{} registered for {:?} was invoked with {:?} while executing {:?}", e.id, defs_now[e.id].mnemonic, e.passed, ins.mnemonic()), steps);
                 }
-                if defs_now[e.id].before && e.rip_seen != next_ip {
+                let rip_expected = events[..i].iter().rev().find_map(|x| x.rip_set).unwrap_or(next_ip);
+                if defs_now[e.id].before && e.rip_seen != rip_expected {
                     return fail(col, "before-hook-saw-rip-not-advanced", format!("hook #{} saw RIP {:#x}, next instruction is at {:#x}", e.id, e.rip_seen, next_ip), steps);
                 }
                 if e.inner_registration_ok == Some(true) {
@@ -344,7 +376,14 @@ impl C12 {
                 for e in &before_ev {
                     let _ = apply_mod(&mut t2, e.id);
                 }
-                call(|| block_on(t2.step())).is_ok() && t2.verif_finished()
+                let ok = call(|| block_on(t2.step())).is_ok();
+                // (a moved RIP decides whether the code end is reached)
+                let rip_mod = before_ev.iter().rev().find_map(|e| e.rip_set);
+                let ends_by_rip = match rip_mod {
+                    Some(x) if ins.mnemonic() != iced_x86::Mnemonic::Call => x == proggen::CODE_AT + prog.code.len() as u64,
+                    _ => t2.verif_finished(),
+                };
+                ok && (t2.verif_finished() || ends_by_rip) && (rip_mod.is_none() || ends_by_rip)
             };
             for (phase, evs, reg) in [("before", &before_ev, registered(true)), ("after", &after_ev, registered(false))] {
                 if phase == "after" && before_stopped {
@@ -384,6 +423,14 @@ impl C12 {
                     return fail(col, "before-hook-saw-unexpected-state", format!("hook #{} (before {:?}) did not see the pre-instruction state (+ RIP advanced, + modifications of earlier hooks)", e.id, ins.mnemonic()), steps);
                 }
                 let _ = apply_mod(&mut t_pre, e.id);
+                if let Some(x) = e.rip_set {
+                    let _ = t_pre.reg_write_64(SR::RIP, x);
+                }
+            }
+            // the last RIP a before hook left behind (None: untouched)
+            let rip_mod: Option<u64> = before_ev.iter().rev().find_map(|e| e.rip_set);
+            if rip_mod.is_some() {
+                col.distinct_key(&format!("before-hook-moved-rip|{:?}", ins.mnemonic()));
             }
             // apply the before-modifications to the real twin, then execute the instruction there
             for e in &before_ev {
@@ -396,15 +443,63 @@ impl C12 {
                 if executed_on_main {
                     return fail(col, "instruction-executed-although-a-before-hook-failed", format!("{}", ins), steps);
                 }
-                let _ = twin.reg_write_64(SR::RIP, next_ip);
+                let _ = twin.reg_write_64(SR::RIP, rip_mod.unwrap_or(next_ip));
             } else if before_stopped && !executed_on_main && after_ev.is_empty() && call(|| block_on(twin.clone().step())).is_ok() {
                 // left open by the statement: a before-hook stop may skip the instruction
                 // (the instruction would have succeeded, yet the count did not advance)
-                let _ = twin.reg_write_64(SR::RIP, next_ip);
+                let _ = twin.reg_write_64(SR::RIP, rip_mod.unwrap_or(next_ip));
                 col.count("before_stop_skipped_instruction", 1);
             } else {
+                let mem_before: Vec<ax_x86::verif::AreaView> = if rip_mod.is_some() { twin.verif_areas() } else { Vec::new() };
                 let tr = call(|| block_on(twin.step()));
                 twin_err = !tr.is_ok();
+                // replay of a moved RIP on the hook-free twin: a non-branching instruction leaves RIP where the hook put
+                // it; CALL pushes it as the return address (found as the 8 bytes the twin's CALL just wrote = next_ip)
+                if let Some(x) = rip_mod {
+                    if twin_err || ins.mnemonic() != iced_x86::Mnemonic::Call {
+                        let _ = twin.reg_write_64(SR::RIP, x);
+                        if !twin_err && x == proggen::CODE_AT + prog.code.len() as u64 {
+                            // the run ends when RIP reaches the end of the code; the twin cannot learn that from a register write
+                            col.count("rip_moved_to_code_end", 1);
+                        }
+                    } else {
+                        // the return address lies in the slot at the new RSP (architecture) or one above it (this
+                        // emulator's convention): whichever holds next_ip; if both do, the one the CALL just changed
+                        let rsp_after = twin.reg_read_64(SR::RSP).unwrap_or(0);
+                        let holds = |t: &Axecutor, a: u64| catch(|| t.mem_read_64(a)).ok().and_then(|r| r.ok()) == Some(next_ip);
+                        let (h0, h1) = (holds(&twin, rsp_after), holds(&twin, rsp_after.wrapping_add(8)));
+                        let changed = |a: u64| -> bool {
+                            let after = twin.verif_areas();
+                            mem_before.iter().zip(after.iter()).any(|(b, n)| a >= n.start && a + 8 <= n.start + n.length && b.data.len() == n.data.len() && b.data[(a - n.start) as usize..(a - n.start) as usize + 8] != n.data[(a - n.start) as usize..(a - n.start) as usize + 8])
+                        };
+                        let slot = match (h0, h1) {
+                            (true, false) => Some(rsp_after),
+                            (false, true) => Some(rsp_after.wrapping_add(8)),
+                            (true, true) => match (changed(rsp_after), changed(rsp_after.wrapping_add(8))) {
+                                (true, false) => Some(rsp_after),
+                                (false, true) => Some(rsp_after.wrapping_add(8)),
+                                _ => None,
+                            },
+                            _ => None,
+                        };
+                        match slot {
+                            Some(s) => {
+                                let _ = twin.mem_write_64(s, x);
+                            }
+                            None => {
+                                // cannot tell where the return address went: this step is not judged, the twin follows the machine
+                                col.count("call_slot_ambiguous_step_not_judged", 1);
+                                if !resync(&mut twin, &ax) {
+                                    break;
+                                }
+                                if !matches!(r, Call::Ok(true)) {
+                                    break;
+                                }
+                                continue;
+                            }
+                        }
+                    }
+                }
                 if tr.is_ok() && !executed_on_main {
                     return fail(col, "instruction-not-executed-exactly-once", format!("{} executes on the hook-free twin but the executed count went {} -> {}", ins, count0, ax.verif_executed_instructions_count()), steps);
                 }
@@ -438,7 +533,7 @@ impl C12 {
                 // the run failed. Registration must still be possible, then the run may continue (second run)
                 let id = DEFS.with(|d| d.borrow().len());
                 if id < HOOK_FNS.len() {
-                    let d = HookDef { mnemonic: mnems[0], before: true, script: vec![], try_register: false };
+                    let d = HookDef { mnemonic: mnems[0], before: true, script: vec![], try_register: false, mod_rip: false };
                     DEFS.with(|v| v.borrow_mut().push(d.clone()));
                     let rr = call(|| ax.hook_before_mnemonic_native(d.mnemonic, HOOK_FNS[id]));
                     col.distinct_key("register-after-failed-step");
@@ -466,7 +561,7 @@ impl C12 {
         if stopped {
             let id = DEFS.with(|d| d.borrow().len());
             if id < HOOK_FNS.len() {
-                DEFS.with(|v| v.borrow_mut().push(HookDef { mnemonic: mnems[0], before: false, script: vec![], try_register: false }));
+                DEFS.with(|v| v.borrow_mut().push(HookDef { mnemonic: mnems[0], before: false, script: vec![], try_register: false, mod_rip: false }));
                 let rr = call(|| ax.hook_after_mnemonic_native(mnems[0], HOOK_FNS[id]));
                 col.distinct_key("register-after-stop");
                 if !rr.is_ok() {
